@@ -1,2 +1,3 @@
 pub mod codec;
 pub mod scheme;
+pub mod http;
